@@ -124,6 +124,12 @@ def worker(ctx, job):
         for k in list(ctx.fail_counts):
             if k.startswith("marker-condition/"):
                 ctx.fail_counts["refused-transition/" + k] = ctx.fail_counts.get("refused-transition/" + k, 0) + ctx.fail_counts.pop(k)
+    # a frame's guard is evaluated at the entry attempt itself: a start that follows a `ready` (which evaluated the guard
+    # earlier, when the shares were different) is judged on the shares as they are at the start (family shared with C04)
+    if job.get("rfs"):
+        from vf.checks import c04
+        for seed in job["rfs"]:
+            c04.ready_flip_start_check(ctx, random.Random(seed))
     for seed in job.get("gca", []):
         case = gated_condaux_case(random.Random(seed))
         r = gated_condaux_eval(case)
@@ -200,7 +206,10 @@ def run(ctx):
     gated = [c20.random_case(ctx.rng, opts, gated=True) for _ in range(ctx.pick(320, 6400))]
     items += [(ctx.rng.randrange(1 << 30), "clone") for _ in range(ctx.pick(320, 6000))]
     gca = [ctx.rng.randrange(1 << 30) for _ in range(ctx.pick(160, 6000))]
-    ctx.shard([{"items": items[i::16], "gated": gated[i::16], "gca": gca[i::16]} for i in range(16)], timeout=ctx.pick(300, 1500))
+    rfs = [ctx.rng.randrange(1 << 30) for _ in range(ctx.pick(160, 4000))]
+    ctx.shard([{"items": items[i::16], "gated": gated[i::16], "gca": gca[i::16], "rfs": rfs[i::16]} for i in range(16)],
+              timeout=ctx.pick(300, 1500))
+    ctx.floor("starts_with_false_condition_after_successful_ready", 30)
     ctx.floor("gated_condaux_started_after_refusals", 30)
     ctx.floor("cloned_aux_variants", 40)
     ctx.floor("negated_guard_attempts_in_clones", 10)
